@@ -223,6 +223,11 @@ def o_arm(ad, a, b, c):
     return [("arm", ad, TRIGGERS[a % 8], ACTIONS[b % 8], c % 3)]
 
 
+def o_arm_reconnect(ad, a, b, c):
+    """the application answers a refused connect() by calling connect() again from the errback"""
+    return [("arm", ad, "connect_refused", "connect", 0)]
+
+
 def o_arm_disconnect(ad, a, b, c):
     return [("arm", ad, TRIGGERS[a % 8], "disconnect", 0)]
 
